@@ -425,3 +425,23 @@ def Rx.load (compiles : String → Bool) : Scalar → Option Rx
   | .str s => if compiles s then some ⟨true, s⟩ else none
 
 end AM.Config
+
+/-! ### null entries of an integration list (`slack_configs: [null]`, also opsgenie, wechat, rocketchat)
+
+The loader walks the entries, takes a default for a `null` one, fills the global settings in and validates the result.
+`build` is `receiver.BuildReceiverIntegrations`: it dereferences every entry. -/
+namespace AM.Config
+
+/-- an integration entry after decoding: `none` = YAML `null`; the payload stands for the settings -/
+abbrev Entry := Option Nat
+
+/-- the loader after F14: the default taken for a `null` entry is stored back into the list -/
+def fillNulls (dflt : Nat) (es : List Entry) : List Entry := es.map fun e => some (e.getD dflt)
+
+/-- the loader as pinned: the default lives in a loop variable only, the list keeps its `null` -/
+def fillNullsOld (_dflt : Nat) (es : List Entry) : List Entry := es
+
+/-- building the integrations: `none` = nil dereference (the process dies) -/
+def build (es : List Entry) : Option (List Nat) := es.mapM id
+
+end AM.Config
